@@ -59,6 +59,11 @@ def run(tier):
         for h in rnd.sample(cov, min(len(cov), 150 if tier == "quick" else 1000)):
             jobs.append((h, B, "side-by-side"))
             jobs.append((h, 32, "unified"))
+    # the I/O edges: output through a pager delta starts itself, input from a producer delta starts itself
+    base = [j for j in jobs if j[2] == "unified"]
+    for h, B, mode in rnd.sample(base, min(len(base), 120 if tier == "quick" else 1200)):
+        jobs.append((h, B, "unified/pager"))
+        jobs.append((h, B, "unified/wrap"))
     log(f"[{PID}] design level: {[m.distinct for m in mcs]} distinct states; {len(jobs)} streaming runs planned")
     intern = gitskin.Interner()
     import threading
@@ -70,12 +75,15 @@ def run(tier):
             a = a + ["--side-by-side"]
         return a
 
+    def via_of(mode):
+        return mode.split("/")[1] if "/" in mode else "stdin"
+
     def one(job):
         h, B, mode = job
         data, texts = gitskin.concretise(h)
         lines = [t.encode() for t in texts]
         a = args_for(B, mode)
-        seen, out, code, err, ok = feeder.stream(a, lines)
+        seen, out, code, err, ok = feeder.stream(a, lines, via=via_of(mode))
         pres = []
         for k in range(1, len(lines) + 1):
             pres.append(core.run_delta(a, b"".join(x + b"\n" for x in lines[:k])).out)
